@@ -1,6 +1,9 @@
 use bitcoin::hashes::{Hash, sha256d};
 use std::collections::HashMap;
+#[cfg(not(feature = "verif-sim"))]
 use std::fs::{self, File};
+#[cfg(feature = "verif-sim")]
+use crate::common::simio::{self as fs, File};
 use std::io::{BufWriter, Write};
 use std::path::PathBuf;
 
@@ -27,6 +30,8 @@ pub struct UnspentCsvDump {
 
 impl UnspentCsvDump {
     fn create_writer(cap: usize, path: PathBuf) -> Result<BufWriter<File>> {
+        #[cfg(feature = "verif-sim")]
+        let cap = crate::common::simio::knob("writer_cap", cap);
         Ok(BufWriter::with_capacity(cap, File::create(path)?))
     }
 }
